@@ -134,7 +134,7 @@ func (h Header) ContainsObject(obj parser.QueryExpression) (int, bool) {
 			continue
 		}
 
-		if !strings.EqualFold(f.Identifier, column) {
+		if !strings.EqualFold(f.Identifier, column) || !equalStringLiterals(f.Identifier, column) {
 			continue
 		}
 
@@ -146,6 +146,39 @@ func (h Header) ContainsObject(obj parser.QueryExpression) (int, bool) {
 		return -1, false
 	}
 	return idx, true
+}
+
+// equalStringLiterals reports whether the quoted parts of two expression texts that are equal under case folding
+// are equal exactly: names and keywords are case-insensitive, the contents of string literals are not.
+func equalStringLiterals(a string, b string) bool {
+	ra, rb := []rune(a), []rune(b)
+	if len(ra) != len(rb) {
+		return false
+	}
+
+	var quote rune
+	escaped := false
+	for i := range ra {
+		if quote == 0 {
+			if ra[i] == '\'' || ra[i] == '"' {
+				quote = ra[i]
+			}
+			continue
+		}
+
+		if ra[i] != rb[i] {
+			return false
+		}
+		switch {
+		case escaped:
+			escaped = false
+		case ra[i] == '\\':
+			escaped = true
+		case ra[i] == quote:
+			quote = 0
+		}
+	}
+	return true
 }
 
 func (h Header) SearchIndex(fieldRef parser.QueryExpression) (int, error) {
